@@ -39,6 +39,9 @@ def spec():
 CUSTOM = {}
 EXT_OBJ = "extension-definition--a932fcc6-e032-476c-826f-cb970a5a1ade"
 EXT_OBS = "extension-definition--b1c2d3e4-0a1b-4c2d-8e3f-1a2b3c4d5e6f"
+# two registered toplevel-property-extensions (their properties become top-level properties of the object carrying them)
+EXT_TLA = "extension-definition--5a1f7c2e-3b4d-4e6f-8a9b-0c1d2e3f4a5b"
+EXT_TLB = "extension-definition--6b2a8d3f-4c5e-4f70-9bac-1d2e3f4a5b6c"
 
 
 def _register():
@@ -60,6 +63,10 @@ def _register():
     CUSTOM["custom/2.1/x-c01-new-observable"] = stix2.v21.CustomObservable(
         "x-c01-new-observable", [("value", P.StringProperty(required=True)), ("x_more", P.IntegerProperty()), ("a_first", P.StringProperty())],
         ["value"], extension_name=EXT_OBS)(mk("C01NewObs"))
+    stix2.v21.CustomExtension(EXT_TLA, [("a_rank", P.IntegerProperty()), ("a_note", P.StringProperty())])(
+        type("C01TopLevelA", (object,), {"extension_type": "toplevel-property-extension"}))
+    stix2.v21.CustomExtension(EXT_TLB, [("b_req", P.StringProperty(required=True)), ("b_num", P.IntegerProperty())])(
+        type("C01TopLevelB", (object,), {"extension_type": "toplevel-property-extension"}))
 
 
 try:
@@ -103,11 +110,20 @@ def register_late(case):
     registered, and only then is the case's object made.  Registration is "on request" at any time: what the
     library answered while the type was unknown must not stick."""
     late = case["late"]
-    cid = case["cid"]
+    cid = late.get("cid") or case["cid"]
     if cid in CUSTOM:
         return
     P = stix2.properties
-    probe = dict(case["data"], type=late["type"])
+    if late.get("member"):
+        # the type occurs as a member of the case's container: the container itself is parsed / built first
+        for allow in (True, False):
+            try:
+                stix2.parse(dict(case["data"], type=case["data"].get("type", "observed-data")), allow_custom=allow)
+            except Exception:  # noqa: BLE001
+                pass
+        probe = dict(late["probe"])
+    else:
+        probe = dict(case["data"], type=late["type"])
     for allow in (True, False):
         try:
             stix2.parse(dict(probe), allow_custom=allow)
@@ -130,6 +146,12 @@ def register_late(case):
 
 
 def make(case):
+    for b in case.get("before", []):
+        # other objects built earlier in the same process (what they leave behind must not matter)
+        try:
+            make(b)
+        except Exception:  # noqa: BLE001
+            pass
     if case.get("late"):
         register_late(case)
     if case["route"] == "parse":
@@ -163,6 +185,13 @@ def derive(obj, how, allow):
         return cls(allow_custom=allow or obj.has_custom, **kwargs)
     if how == "new-version":
         return obj.new_version()
+    if how == "revoke":
+        return obj.revoke()
+    if how == "copy":
+        return copy.copy(obj)
+    if how == "pickle":
+        import pickle
+        return pickle.loads(pickle.dumps(obj))
     if how.startswith("zone:"):
         # the same instants given as timezone-aware datetimes of another zone, at every depth
         return rezone(obj, zone_of(how[5:]), allow)
@@ -196,6 +225,86 @@ def rezone(v, tz, allow):
     return v
 
 
+def alt_inputs(obj, back, text, opts, allow):
+    """the same text handed to parse() in its other accepted forms (dictionary, text stream, bytes) and with the
+    spec version named explicitly: each must give the object the plain text gives"""
+    import io
+    ver = cid_of(obj).replace("custom/", "")[:3]
+    out = []
+    for how in ("dict", "file", "bytes", "version"):
+        try:
+            kwv = {}
+            if how == "dict":
+                src = json.loads(text)
+            elif how == "file":
+                src = io.StringIO(text)
+            elif how == "bytes":
+                src = text.encode("utf-8")
+            else:
+                src = text
+                if ver not in ("2.0", "2.1"):
+                    continue
+                kwv = {"version": ver}
+            b2 = stix2.parse(src, allow_custom=allow, **kwv)
+            same = type(b2) is type(back)
+            eq = bool(b2 == back) and bool(back == b2) if same else False
+            txt = (b2.serialize(**kw(opts)) == back.serialize(**kw(opts))) if same else False
+            out.append({"how": how, "same_class": same, "equal": eq, "text_same": txt})
+        except Exception as e:  # noqa: BLE001
+            out.append({"how": how, "err": type(e).__name__ + ": " + str(e)[:160]})
+    return out
+
+
+def other_writers(obj, text, opts):
+    """the other ways the library writes an object: fp_serialize to a text stream (same options), str()"""
+    import io
+    out = {}
+    try:
+        buf = io.StringIO()
+        obj.fp_serialize(buf, **kw(opts))
+        out["fp_same"] = buf.getvalue() == text
+        if not out["fp_same"]:
+            out["fp_text"] = buf.getvalue()[:300]
+    except Exception as e:  # noqa: BLE001
+        out["fp_err"] = type(e).__name__ + ": " + str(e)[:160]
+    if not opts:
+        try:
+            out["str_same"] = str(obj) == text
+        except Exception as e:  # noqa: BLE001
+            out["str_err"] = type(e).__name__
+    return out
+
+
+def contains_datetime(v):
+    import datetime as dt
+    if isinstance(v, (dt.datetime, dt.date)):
+        return True
+    if isinstance(v, _STIXBase) or isinstance(v, dict):
+        return any(contains_datetime(x) for x in v.values())
+    if isinstance(v, (list, tuple)):
+        return any(contains_datetime(x) for x in v)
+    return False
+
+
+def python_only_in_custom(obj):
+    """a Python-only value (datetime) inside a custom property, at any depth: such a value is written as text and
+    read back as text -- outside the statement (DESIGN 6); derived objects can carry them (e.g. a 2.1-only
+    timestamp property of a member moved into a 2.0 container becomes a custom property holding a datetime)"""
+    if isinstance(obj, _STIXBase):
+        for k, v in obj.items():
+            if k not in type(obj)._properties:
+                if contains_datetime(v):
+                    return True
+            elif python_only_in_custom(v):
+                return True
+        return False
+    if isinstance(obj, dict):
+        return any(python_only_in_custom(x) for x in obj.values())
+    if isinstance(obj, (list, tuple)):
+        return any(python_only_in_custom(x) for x in obj)
+    return False
+
+
 def pairs_top(text):
     """top-level member names of a JSON object text, in textual order"""
     v = json.loads(text, object_pairs_hook=lambda p: p)
@@ -207,6 +316,13 @@ def observe(case):
     if REGISTRATION_ERROR and case["cid"].startswith("custom/"):
         out["err"] = "registration:" + REGISTRATION_ERROR
         return out
+    if case.get("control"):
+        # the same object without the part under test: if even that is refused the case says nothing
+        try:
+            make(case["control"])
+            out["control_ok"] = True
+        except Exception:  # noqa: BLE001
+            out["control_ok"] = False
     try:
         obj = make(case)
     except RecursionError:
@@ -227,9 +343,17 @@ def observe(case):
         except Exception as e:  # noqa: BLE001
             out["err"] = "derive:" + type(e).__name__
             return out
+        if python_only_in_custom(obj):
+            out["err"] = "derive:python-only-value-in-custom-property"
+            return out
     out["created"] = True
     out["cls"] = cid_of(obj)
     out["hc"] = bool(obj.has_custom)
+    import copy as _copy
+    try:
+        fresh0 = _copy.deepcopy(obj)       # never serialized: the reference for "the text depends on object and options only"
+    except Exception:  # noqa: BLE001
+        fresh0 = None
     obs = []
     for opts in case["opts"]:
         o = {"opts": opts}
@@ -258,6 +382,9 @@ def observe(case):
         except Exception as e:  # noqa: BLE001
             o["equal"] = False
             o["eq_err"] = type(e).__name__
+        if isinstance(back, _STIXBase) and len(obs) <= 2:
+            o["alt"] = alt_inputs(obj, back, text, opts, bool(case.get("allow", False) or (case.get("derive") and obj.has_custom)))
+            o["other_writers"] = other_writers(obj, text, opts)
         if isinstance(back, _STIXBase):
             try:
                 again = back.serialize(**kw(opts))
@@ -268,7 +395,50 @@ def observe(case):
                 o["again_same"] = False
                 o["again"] = "EXC " + type(e).__name__
     out["obs"] = obs
+    if fresh0 is not None:
+        out["history"] = history_check(obj, fresh0, case["opts"], obs)
     return out
+
+
+def option_variants(opts):
+    """the same option NAMES with other values, then the original values again"""
+    base = dict(opts)
+    out = [base]
+    for k, v in base.items():
+        if isinstance(v, bool):
+            out.append(dict(base, **{k: not v}))
+        elif k == "indent" and isinstance(v, int):
+            out.append(dict(base, indent=v + 4))
+        elif k == "separators":
+            out.append(dict(base, separators=[", ", ": "] if list(v) != [", ", ": "] else [",", ":"]))
+    if len(out) > 1:
+        out.append(base)
+    return out
+
+
+def ser_outcome(o, opts):
+    try:
+        return o.serialize(**kw(opts))
+    except Exception as e:  # noqa: BLE001
+        return "EXC " + type(e).__name__
+
+
+def history_check(obj, fresh0, optsets, obs):
+    """serialize() again on the object that has already been serialized -- the same option names with other
+    values, in sequence -- against a never-serialized copy of it: the text may depend on object and options only"""
+    import copy as _copy
+    diffs = []
+    first = {json.dumps(o["opts"], sort_keys=True): o.get("text") for o in obs if "text" in o}
+    for opts in optsets[:3]:
+        base_key = json.dumps(opts, sort_keys=True)
+        if base_key in first and ser_outcome(_copy.deepcopy(fresh0), opts) != first[base_key]:
+            continue                # the copy is not a faithful reference here (reported by the deepcopy route, if at all)
+        for var in option_variants(opts):
+            used = ser_outcome(obj, var)
+            ref = ser_outcome(_copy.deepcopy(fresh0), var)
+            if used != ref:
+                diffs.append({"opts": var, "after": opts, "used_object": used[:300], "fresh_object": ref[:300]})
+    return diffs
 
 
 # ------------------------------------------------------------------ verdicts
@@ -329,6 +499,10 @@ def judge(case, res):
     """List of failures {kind, opts, detail} of the property on one observed case."""
     fails = []
     if not res.get("created"):
+        if case.get("expect_created") and res.get("control_ok") is not False:
+            # data that is valid by construction of the case (registered types / extensions only)
+            fails.append({"kind": "valid-object-refused", "opts": {}, "detail": {"error": res.get("err"), "before": bool(case.get("before")),
+                                                                                  "late": bool(case.get("late"))}})
         return fails
     obs = res["obs"]
 
@@ -351,6 +525,18 @@ def judge(case, res):
             fail("not-equal", o, o.get("eq_err", ""))
         if not o.get("again_same"):
             fail("reserialize-differs", o, {"first": o["text"][:400], "again": (o.get("again") or "")[:400]})
+        for al in o.get("alt", []):
+            if "err" in al:
+                fail("other-input-form-refused", o, al)
+            elif not (al["same_class"] and al["equal"] and al["text_same"]):
+                fail("other-input-form-gives-another-object", o, al)
+        ow = o.get("other_writers") or {}
+        if "fp_err" in ow or ow.get("fp_same") is False:
+            fail("fp_serialize-differs-from-serialize", o, ow)
+        if "str_err" in ow or ow.get("str_same") is False:
+            fail("str-differs-from-serialize", o, ow)
+    for dff in res.get("history", []):
+        fails.append({"kind": "serialize-depends-on-earlier-calls", "opts": dff["opts"], "detail": dff})
     good = [o for o in obs if "value" in o]
     # all option sets with the same include_optional_defaults denote the same value
     for incl in (False, True):
@@ -385,9 +571,12 @@ def judge(case, res):
 
 def slim(res):
     """drop bulky fields of passing observations"""
+    res.pop("history", None)
     for o in res.get("obs", []):
         o.pop("value", None)
         o.pop("again", None)
+        o.pop("alt", None)
+        o.pop("other_writers", None)
         t = o.pop("text", None)
         if t is not None:
             o["len"] = len(t)
